@@ -500,6 +500,17 @@ func lenientRequest(r *rand.Rand, ks *keyset) *request {
 	return newReq("lenient/value+r", "POST", ref.MustJSON(doc), expectLenient, h)
 }
 
+// paddedRequest: a valid batch whose JSON text is padded with insignificant whitespace to a few MB
+// (bodies of that size are normal at production dimensions).
+func paddedRequest(r *rand.Rand, ks *keyset) *request {
+	doc, h := validDoc(r, ks)
+	b := ref.MustJSON(doc)
+	pad := bytes.Repeat([]byte(" "), (1+r.Intn(3))<<20)
+	cut := bytes.IndexByte(b, ',') + 1
+	body := append(append(append([]byte{}, b[:cut]...), pad...), b[cut:]...)
+	return newReq("valid/whitespace-padded", "POST", body, expectValid, h)
+}
+
 // extraFieldRequest: unknown fields are ignored; a valid batch stays valid.
 func extraFieldRequest(r *rand.Rand, ks *keyset) *request {
 	doc, h := validDoc(r, ks)
